@@ -85,10 +85,57 @@ def run(chk: core.Check):
             chk.fail(f"{failed} failed/errored scenarios reported with max_failures={maxf}", sc)
     chk.stages["targeted_limit_search"] = {"runs": n_t, "over_limit": found}
 
+    # the failure limit acts as a stop request for the workers: at most one further request per worker once it is reached
+    chk.stages["requests_after_limit"] = after_limit(chk, (4 if quick else 40) * (5 if chk.broken else 1))
+
     free = free_runs(chk, (10 if quick else 120) * (10 if chk.broken else 1))
     chk.stages["free_runs"] = free
     for f in chk.findings:
         chk.known(f, False)
+
+
+def after_limit(chk, n):
+    import time as _time
+
+    from harness.loopback import Recorder
+
+    rng = chk.rng
+    found = 0
+    for k in range(n):
+        workers = rng.choice([2, 2, 3])
+        n_ops = workers + rng.randint(0, 1)
+        kinds = ["fail"] + ["ok"] * (n_ops - 1)
+        maxf = 1
+        me = rng.randint(8, 14)
+
+        def responder(item, kinds=kinds):
+            i = U.op_index(item["target"])
+            if i is not None and kinds[i] == "fail":
+                return 500, [("Content-Type", "application/json")], b"{}"
+            _time.sleep(0.03)  # the passing operations are still in the middle of their examples when the limit is reached
+            return 200, [("Content-Type", "application/json")], b"{}"
+
+        rec = Recorder(responder)
+        box = {}
+
+        def on_event(ev, stream, box=box, rec=rec):
+            if event_kind(ev) == "ScenarioFinished" and ev.status.name in ("FAILURE", "ERROR") and "at" not in box:
+                box["at"] = len(rec.requests)
+
+        try:
+            evs, reqs = run_engine(U.schema_with_ops(n_ops), None, phases=["fuzzing"], workers=workers, max_examples=me, seed=k + 1,
+                                   max_failures=maxf, on_event=on_event, rec=rec)
+        finally:
+            rec.close()
+        cfg = {"after_limit": True, "workers": workers, "ops": n_ops, "max_examples": me, "seed": k}
+        chk.seen(cfg, "at" in box)
+        if "at" in box:
+            after = len(reqs) - box["at"]
+            # one in flight per worker, plus one each that may slip in before the consumer sets the flag
+            if after > 2 * workers:
+                found += 1
+                chk.fail(f"{after} requests sent after the failure limit was reached with {workers} workers", cfg)
+    return {"runs": n, "over": found}
 
 
 def ops_schema(n_ops):
